@@ -198,6 +198,10 @@ def compile_correspondence(ctx, res, programs, full=True, full_cap=4000, blocks=
     fr = res.extra.setdefault("fragment_F1", {"in": 0, "out": 0})
     for x in frag:
         fr["in" if x == "true" else "out"] += 1
+    tot = fr["in"] + fr["out"]
+    # share of the generated programs on which C01_sound / C02_complete / C03_unique_extension apply as theorems
+    res.extra["proved_fragment"] = {"in": fr["in"], "of": tot, "share": round(fr["in"] / tot, 3) if tot else 0.0,
+                                    "guard": "CodeSem.in_f1 (evaluated by the extracted model on the flat record of the real block)"}
     mism = []
     stats = res.extra.setdefault("compile_corr", {"literal": 0, "canonical": 0, "model-only": 0, "mismatch": 0,
                                                   "real_errors": {}, "constraint_classes": {}})
